@@ -29,6 +29,20 @@ def gen_cases(tier, seed):
     if tier == "thorough":
         grid = grid[::3]
     cases += grid
+    # runs in which the re-timing has something to move: feeding only the ruminants delays slaughter, so the fed herds give less
+    # meat than the unfed ones in some months (about 35 countries); with culled meat eaten and not eaten, schedules that keep feed
+    isos = workload.all_isos()
+    rnd = random.Random(1800 + seed)
+    late = [i for i in ("PAK", "ALB", "TUN", "MLI", "MNG", "MOZ", "KEN", "TZA", "BFA", "ETH", "NER", "SDN", "AFG", "UZB", "IRN", "DZA") if i in isos]
+    pick = workload.rotate(late, seed * 3)[: (8 if tier == "quick" else 16)] + rnd.sample(isos, 2 if tier == "quick" else 24)
+    for j, iso in enumerate(pick):
+        for rep in range(1 if tier == "quick" else 2):
+            o = workload.base_country(meat_strategy=["feed_only_ruminants", "feed_only_ruminants", "baseline_breeding"][(j + rep) % 3], cull=["dont_eat_culled", "do_eat_culled"][(j + rep) % 2],
+                                      shutoff=["long_delayed_shutoff_after_10_percent_fed", "continued", "long_delayed_shutoff", "continued_after_10_percent_fed"][(j + rep) % 4],
+                                      NMONTHS=[120, 72][(j // 2) % 2], scenario=["no_resilient_foods", "all_resilient_foods"][(j // 3) % 2])
+            c = workload.pipeline_case(iso, o, "slaughter_delayed_by_feeding/%s/%s" % (o["cull"], o["shutoff"]))
+            c["id"] = "%s/%s#r%d" % (iso, c["tag"], len(cases))
+            cases.append(c)
     return cases
 
 
